@@ -21,6 +21,9 @@ def crash_to_violation(e):
     """An exception that escapes run_case from *inside the code under test* (innermost frame in
     allmydata/) on an input the property module considers valid is reported as a violation
     (kind crash:<Type>@<module>.<function>); anything raised from harness code stays a harness error."""
+    from vf import boot
+    if isinstance(e, boot.LocalLivelock):
+        return Violation("local-livelock", str(e), {})
     tb = traceback.extract_tb(e.__traceback__)
     if not tb:
         return None
